@@ -53,7 +53,7 @@ CHECKS = {
              "source that records each request and can be scripted. For every produced value (random bytes/strings, salts of 15 hashers x "
              "admissible sizes read back by the independent extractor, salts of the other 33 registered handlers that draw one (read back "
              "through the handler's own parser; cisco_type7's integer salt as a 16-value space), TOTP keys, application secrets, generated words/phrases, django_disabled "
-             "suffixes, libpass salts) the run sees draws and value side by side: size and alphabet; the draws must be able to cover the declared "
+             "suffixes, libpass salts, salts of passlib.ext.django's hasher adapter after a call with an explicit salt) the run sees draws and value side by side: size and alphabet; the draws must be able to cover the declared "
              "space; when draw space and value space have the same size, uniformity is equivalent to injectivity, which is checked over the "
              "sample and by flipping single bits of a recorded answer and replaying (the value must change); for spaces <= 2^16 ALL "
              "answers of the source are enumerated and every declared value must be produced equally often (exhaustive sub-case, also when "
@@ -184,7 +184,8 @@ CHECKS = {
         technique="deterministic simulation of real threads: seeded baton-passing scheduler pre-empting at sys.settrace line/opcode events (sticky walk, PCT, hot-spot, uniform, park-one-thread-mid-operation), fork-per-run fresh first-use state, cooperative locks; per-thread outcome vs single-thread outcome",
         text="Each run forks a process in which nothing has been used yet, builds one first-use object (LazyCryptContext with/without "
              "onload or with an onload that fails once, a shipped preset, a multi-backend hasher, a lazy base64 engine, an unloaded registry name, a context's record "
-             "caches, the digest-info cache, passlib.pwd's word sets, a libpass context) or an initialised shared context with a "
+             "caches, the digest-info cache, passlib.pwd's word sets, a libpass context, an application's own handler module registered by path "
+             "together with a lazy PrefixWrapper around one of its handlers) or an initialised shared context with a "
              "non-reentrant crypt(3) model, and lets 2-3 real "
              "threads make their first calls (for the registry also: sibling names hosted by one not-yet-imported module, first "
              "verify through a freshly imported handler, and enumeration of a pre-populated registry while other threads load entries) while a seeded scheduler decides at every source line of /repo code who runs next. Every "
